@@ -2,7 +2,8 @@
    Proved: cancelling a closed or unknown order fails and changes nothing; market and stop orders fill entirely or
    not at all; an order's recorded fill completes it exactly when the filled amount reaches the ordered amount.
    Proved over whole histories: 0 <= filled <= amount for every order in every reachable state, ids = positions.
-   C05_partial: finality of closed orders, exactness of the listings across the
+   Proved over whole histories: a closed order never changes again (Structure.v: the only records an operation rewrites
+   are those of orders that were open when it started).  C05_partial: exactness of the listings across the
    periodic re-indexing and the event sequence are validated by the correspondence check (including histories of
    hundreds of bars) and the monitor; see DESIGN.md for the invariants (I5, I6, I8) that remain to be mechanised. *)
 From Coq Require Import ZArith QArith List.
@@ -74,3 +75,23 @@ Theorem C05_fill_never_exceeds_liquidity_left : forall l a,
   exists l', take_liquidity l a = Ok l' /\ liq_ok l'.
 Proof. exact FillBounds.take_liquidity_total. Qed.
 Print Assumptions C05_fill_never_exceeds_liquidity_left.
+
+(* a closed order never changes again: in every state reachable later, by any further operations, its record (state,
+   filled amounts, fees, fills, loans) is exactly what it was when it was found closed *)
+Theorem C05_closed_orders_never_change_again : forall c initial ops1 ops2 i o,
+  cfg_ok c -> ops_ok ops1 -> ops_ok ops2 ->
+  nth_error (s_orders (run c (init_st initial) ops1)) i = Some o -> is_open o = false ->
+  nth_error (s_orders (run c (init_st initial) (ops1 ++ ops2))) i = Some o.
+Proof. exact closed_final_reachable. Qed.
+Print Assumptions C05_closed_orders_never_change_again.
+
+Example C05_final_nonvacuous :
+  let c := mkCfg [(1%positive, 2%nat); (2%positive, 2%nat)] [] None NoFee InfLiq NoLoans in
+  let p := (1%positive, 2%positive) in
+  let ops1 := [OBar p 60%Z (mkBar 100 100 100 100 10); OCreate KMarket Buy p 2 false false;
+               OBar p 120%Z (mkBar 101 101 101 101 10)] in
+  match nth_error (s_orders (run c (init_st [(2%positive, 1000)]) ops1)) 0 with
+  | Some o => is_open o = false /\ Qeq_bool (filled o) 2 = true
+  | None => False
+  end.
+Proof. vm_compute. split; reflexivity. Qed.
